@@ -169,7 +169,7 @@ def run(ctx):
     rep = ctx.rep
     rep.rule("C10.R8", "equivariance typing (K20) of every interpolation kernel: the returned position transforms as a point, the rotation left-covariantly, both strains are invariant under a superposed rigid motion of the nodes", 20)
     equivariance(ctx)
-    rep.rule("C10.R10", "material laws: a reference quantity is the SAME function of the reference strain as its current counterpart is of the current strain (lambda0 = norm(B_Gamma0) next to lambda = norm(B_Gamma)); only then do the differences f(strain) - f(reference strain) vanish at every reference configuration, pre-sheared ones included", 2)
+    rep.rule("C10.R10", "material laws: a reference quantity is the SAME function of the reference strain as its current counterpart is of the current strain (lambda0 = norm(B_Gamma0) next to lambda = norm(B_Gamma)); only then do the differences f(strain) - f(reference strain) vanish at every reference configuration, pre-sheared ones included", 1)
     reference_counterparts(ctx)
     rep.rule("C10.R9", "memoised rod routines (kernels, and anything a change adds: residuals, forces) are keyed by every argument the result depends on: a compliance residual served from a cache keyed without la_c reports a stale non-zero value at the reference configuration", 8)
     from . import c26 as _c26
